@@ -49,18 +49,24 @@ theorem attr_unique {attrs : List Attr} (nd : (attrs.map (·.1)).Nodup) {k r1 r2
     · exact absurd (by rw [← e2]; exact mem_keys_of_mem m1) nd.1
     · exact ih nd.2 m1 m2
 
+/-- no attribute syntax error in the list -/
+def NoErr (attrs : List Attr) : Prop := ∀ a ∈ attrs, a.1 ≠ []
+
+theorem NoErr.tail {a : Attr} {attrs : List Attr} (h : NoErr (a :: attrs)) : NoErr attrs :=
+  fun b hb => h b (List.mem_cons_of_mem _ hb)
+
 theorem getAttrAux_ok (key : Name) (v raw : Name) :
-    ∀ (attrs : List Attr) (seen : List Name), (∀ a ∈ attrs, a.1 ∉ seen) →
+    ∀ (attrs : List Attr), NoErr attrs →
       (attrs.map (·.1)).Nodup → (key, raw) ∈ attrs → unescape raw = some v →
-      getAttrAux key seen attrs = .ok v := by
+      getAttrAux key attrs = .ok v := by
   intro attrs
   induction attrs with
-  | nil => intro _ _ _ h; cases h
+  | nil => intro _ _ h; cases h
   | cons a attrs ih =>
-    intro seen hs nd hm hu
+    intro hs nd hm hu
     obtain ⟨k', v'⟩ := a
     simp only [List.map_cons, List.nodup_cons] at nd
-    have hk' : k' ∉ seen := hs (k', v') (List.mem_cons_self ..)
+    have hk' : k' ≠ [] := hs (k', v') (List.mem_cons_self ..)
     unfold getAttrAux
     simp only [hk', if_false]
     by_cases hk : k' = key
@@ -72,46 +78,36 @@ theorem getAttrAux_ok (key : Name) (v raw : Name) :
     · simp only [hk, if_false]
       rcases List.mem_cons.mp hm with e | m
       · cases e; exact absurd rfl hk
-      · apply ih (k' :: seen) _ nd.2 m hu
-        intro a ha
-        simp only [List.mem_cons, not_or]
-        refine ⟨?_, hs a (List.mem_cons_of_mem _ ha)⟩
-        intro e
-        exact nd.1 (e ▸ List.mem_map.mpr ⟨a, ha, rfl⟩)
+      · exact ih hs.tail nd.2 m hu
 
+/-- (no distinctness needed any more: the reader does not look for repeated keys) -/
 theorem getAttrAux_missing (key : Name) :
-    ∀ (attrs : List Attr) (seen : List Name), (∀ a ∈ attrs, a.1 ∉ seen) →
-      (attrs.map (·.1)).Nodup → (∀ a ∈ attrs, a.1 ≠ key) →
-      getAttrAux key seen attrs = .error .invalidRecord := by
+    ∀ (attrs : List Attr), NoErr attrs → (∀ a ∈ attrs, a.1 ≠ key) →
+      getAttrAux key attrs = .error .invalidRecord := by
   intro attrs
   induction attrs with
   | nil => intros; rfl
   | cons a attrs ih =>
-    intro seen hs nd hne
+    intro hs hne
     obtain ⟨k', v'⟩ := a
-    simp only [List.map_cons, List.nodup_cons] at nd
-    have hk' : k' ∉ seen := hs (k', v') (List.mem_cons_self ..)
+    have hk' : k' ≠ [] := hs (k', v') (List.mem_cons_self ..)
     have hk : k' ≠ key := hne (k', v') (List.mem_cons_self ..)
     unfold getAttrAux
     simp only [hk', hk, if_false]
-    apply ih (k' :: seen) _ nd.2 (fun a ha => hne a (List.mem_cons_of_mem _ ha))
-    intro a ha
-    simp only [List.mem_cons, not_or]
-    refine ⟨?_, hs a (List.mem_cons_of_mem _ ha)⟩
-    intro e
-    exact nd.1 (e ▸ List.mem_map.mpr ⟨a, ha, rfl⟩)
+    exact ih hs.tail (fun a ha => hne a (List.mem_cons_of_mem _ ha))
 
-theorem nodupKeys_iff (attrs : List Attr) : nodupKeys attrs = true ↔ (attrs.map (·.1)).Nodup := by
-  simp [nodupKeys]
+theorem keysOk_iff (attrs : List Attr) :
+    keysOk attrs = true ↔ (attrs.map (·.1)).Nodup ∧ NoErr attrs := by
+  simp [keysOk, NoErr, isAttrErr]
 
-theorem getAttr_of_hasAttr {attrs : List Attr} {k v : Name} (nd : nodupKeys attrs = true)
+theorem getAttr_of_hasAttr {attrs : List Attr} {k v : Name} (nd : keysOk attrs = true)
     (h : hasAttr attrs k v = true) : getAttr k attrs = .ok v := by
   simp only [hasAttr, List.any_eq_true, Bool.and_eq_true, decide_eq_true_eq] at h
   obtain ⟨⟨k', raw⟩, hm, hk, hu⟩ := h
   simp only at hk hu; subst hk
-  exact getAttrAux_ok _ _ _ _ _ (by simp) ((nodupKeys_iff _).mp nd) hm hu
+  exact getAttrAux_ok _ _ _ _ ((keysOk_iff _).mp nd).2 ((keysOk_iff _).mp nd).1 hm hu
 
-theorem getAttr_of_hasNum {attrs : List Attr} {k : Name} {b n : Nat} (nd : nodupKeys attrs = true)
+theorem getAttr_of_hasNum {attrs : List Attr} {k : Name} {b n : Nat} (nd : keysOk attrs = true)
     (h : hasNum b attrs k n = true) :
     ∃ s, getAttr k attrs = .ok s ∧ parseUnsigned b s = some n := by
   simp only [hasNum, List.any_eq_true, Bool.and_eq_true, decide_eq_true_eq] at h
@@ -121,12 +117,12 @@ theorem getAttr_of_hasNum {attrs : List Attr} {k : Name} {b n : Nat} (nd : nodup
   | none => simp [hun] at hu
   | some s =>
     simp only [hun, decide_eq_true_eq] at hu
-    exact ⟨s, getAttrAux_ok _ _ _ _ _ (by simp) ((nodupKeys_iff _).mp nd) hm hun, hu⟩
+    exact ⟨s, getAttrAux_ok _ _ _ _ ((keysOk_iff _).mp nd).2 ((keysOk_iff _).mp nd).1 hm hun, hu⟩
 
-theorem getAttr_of_hasNoKey {attrs : List Attr} {k : Name} (nd : nodupKeys attrs = true)
+theorem getAttr_of_hasNoKey {attrs : List Attr} {k : Name} (nd : keysOk attrs = true)
     (h : hasNoKey attrs k = true) : getAttr k attrs = .error .invalidRecord := by
   simp only [hasNoKey, List.all_eq_true, decide_eq_true_eq] at h
-  exact getAttrAux_missing _ _ _ (by simp) ((nodupKeys_iff _).mp nd) h
+  exact getAttrAux_missing _ _ ((keysOk_iff _).mp nd).2 h
 
 def upd (attrs : List Attr) (k : Name) (old : Option Nat) (n : Nat) : Option Nat :=
   if k ∈ attrs.map (·.1) then some n else old
@@ -145,28 +141,21 @@ theorem keys_distinct : sCi ≠ sCb ∧ sCi ≠ sMb ∧ sCi ≠ sNr ∧ sCb ≠ 
   decide
 
 theorem lineAttrs_ok (ci cb mb nr : Nat) :
-    ∀ (attrs : List Attr) (seen : List Name) (acc : LineAcc), (∀ a ∈ attrs, a.1 ∉ seen) →
-      (attrs.map (·.1)).Nodup →
+    ∀ (attrs : List Attr) (acc : LineAcc), NoErr attrs →
       (∀ a ∈ attrs, a.1 = sCi → parseUnsigned U64MAX a.2 = some ci) →
       (∀ a ∈ attrs, a.1 = sCb → parseUnsigned U64MAX a.2 = some cb) →
       (∀ a ∈ attrs, a.1 = sMb → parseUnsigned U64MAX a.2 = some mb) →
       (∀ a ∈ attrs, a.1 = sNr → parseUnsigned U32MAX a.2 = some nr) →
-      lineAttrs seen attrs acc = .ok ⟨upd attrs sCi acc.ci ci, upd attrs sCb acc.cb cb,
+      lineAttrs attrs acc = .ok ⟨upd attrs sCi acc.ci ci, upd attrs sCb acc.cb cb,
         upd attrs sMb acc.mb mb, upd attrs sNr acc.nr nr⟩ := by
   intro attrs
   induction attrs with
-  | nil => intro seen acc _ _ _ _ _ _; simp [lineAttrs, upd]
+  | nil => intro acc _ _ _ _ _; simp [lineAttrs, upd]
   | cons a attrs ih =>
-    intro seen acc hs nd h1 h2 h3 h4
+    intro acc hs h1 h2 h3 h4
     obtain ⟨k', v'⟩ := a
-    simp only [List.map_cons, List.nodup_cons] at nd
-    have hk' : k' ∉ seen := hs (k', v') (List.mem_cons_self ..)
-    have hs' : ∀ a ∈ attrs, a.1 ∉ k' :: seen := by
-      intro a ha
-      simp only [List.mem_cons, not_or]
-      refine ⟨?_, hs a (List.mem_cons_of_mem _ ha)⟩
-      intro e
-      exact nd.1 (e ▸ List.mem_map.mpr ⟨a, ha, rfl⟩)
+    have hk' : k' ≠ [] := hs (k', v') (List.mem_cons_self ..)
+    have hs' := hs.tail
     have r1 := fun a ha => h1 a (List.mem_cons_of_mem _ ha)
     have r2 := fun a ha => h2 a (List.mem_cons_of_mem _ ha)
     have r3 := fun a ha => h3 a (List.mem_cons_of_mem _ ha)
@@ -179,7 +168,7 @@ theorem lineAttrs_ok (ci cb mb nr : Nat) :
       have := h1 (sCi, v') (List.mem_cons_self ..) rfl
       simp only at this
       simp only [if_true, this]
-      rw [ih _ _ hs' nd.2 r1 r2 r3 r4]
+      rw [ih _ hs' r1 r2 r3 r4]
       simp only [upd_cons_self, upd_some, upd_cons_ne d1.symm, upd_cons_ne d2.symm, upd_cons_ne d3.symm]
     · simp only [e1, if_false]
       by_cases e2 : k' = sCb
@@ -187,7 +176,7 @@ theorem lineAttrs_ok (ci cb mb nr : Nat) :
         have := h2 (sCb, v') (List.mem_cons_self ..) rfl
         simp only at this
         simp only [if_true, this]
-        rw [ih _ _ hs' nd.2 r1 r2 r3 r4]
+        rw [ih _ hs' r1 r2 r3 r4]
         simp only [upd_cons_self, upd_some, upd_cons_ne d1, upd_cons_ne d4.symm, upd_cons_ne d5.symm]
       · simp only [e2, if_false]
         by_cases e3 : k' = sMb
@@ -195,7 +184,7 @@ theorem lineAttrs_ok (ci cb mb nr : Nat) :
           have := h3 (sMb, v') (List.mem_cons_self ..) rfl
           simp only at this
           simp only [if_true, this]
-          rw [ih _ _ hs' nd.2 r1 r2 r3 r4]
+          rw [ih _ hs' r1 r2 r3 r4]
           simp only [upd_cons_self, upd_some, upd_cons_ne d2, upd_cons_ne d4, upd_cons_ne d6.symm]
         · simp only [e3, if_false]
           by_cases e4 : k' = sNr
@@ -203,10 +192,10 @@ theorem lineAttrs_ok (ci cb mb nr : Nat) :
             have := h4 (sNr, v') (List.mem_cons_self ..) rfl
             simp only at this
             simp only [if_true, this]
-            rw [ih _ _ hs' nd.2 r1 r2 r3 r4]
+            rw [ih _ hs' r1 r2 r3 r4]
             simp only [upd_cons_self, upd_some, upd_cons_ne d3, upd_cons_ne d5, upd_cons_ne d6]
           · simp only [e4, if_false]
-            rw [ih _ _ hs' nd.2 r1 r2 r3 r4]
+            rw [ih _ hs' r1 r2 r3 r4]
             have n1 : sCi ≠ k' := fun h => e1 h.symm
             have n2 : sCb ≠ k' := fun h => e2 h.symm
             have n3 : sMb ≠ k' := fun h => e3 h.symm
@@ -229,16 +218,17 @@ theorem hasRawNum_elim {attrs : List Attr} {k : Name} {b n : Nat}
 theorem lineAttrs_of_wf {l : Line} {tag : Name} {attrs : List Attr} {sc : Bool}
     (h : (SSeg.line l tag attrs sc).wf = true) :
     localName tag = sLine ∧
-    lineAttrs [] attrs {} = .ok ⟨some l.ci, some l.cb, some l.mb, some l.nr⟩ := by
+    lineAttrs attrs {} = .ok ⟨some l.ci, some l.cb, some l.mb, some l.nr⟩ := by
   simp only [SSeg.wf, Bool.and_eq_true, decide_eq_true_eq] at h
   obtain ⟨⟨⟨⟨⟨ht, nd⟩, h1⟩, h2⟩, h3⟩, h4⟩ := h
-  have nd' := (nodupKeys_iff _).mp nd
+  have nd' := ((keysOk_iff _).mp nd).1
+  have ne' := ((keysOk_iff _).mp nd).2
   obtain ⟨m1, p1⟩ := hasRawNum_elim nd' h1
   obtain ⟨m2, p2⟩ := hasRawNum_elim nd' h2
   obtain ⟨m3, p3⟩ := hasRawNum_elim nd' h3
   obtain ⟨m4, p4⟩ := hasRawNum_elim nd' h4
   refine ⟨ht, ?_⟩
-  rw [lineAttrs_ok l.ci l.cb l.mb l.nr attrs [] {} (by simp) nd' p1 p2 p3 p4]
+  rw [lineAttrs_ok l.ci l.cb l.mb l.nr attrs {} ne' p1 p2 p3 p4]
   simp [upd, m1, m2, m3, m4]
 
 /-! ## `<sourcefile>` -/
@@ -2069,20 +2059,20 @@ theorem isJacoco_take (file : List Nat) : isJacoco file = isJacoco (file.take 25
 /-! ## attribute order -/
 
 theorem getAttrAux_found (key : Name) (raw : Name) :
-    ∀ (attrs : List Attr) (seen : List Name), (∀ a ∈ attrs, a.1 ∉ seen) →
+    ∀ (attrs : List Attr), NoErr attrs →
       (attrs.map (·.1)).Nodup → (key, raw) ∈ attrs →
-      getAttrAux key seen attrs
+      getAttrAux key attrs
         = match unescape raw with
           | some s => .ok s
           | none => .error .parse := by
   intro attrs
   induction attrs with
-  | nil => intro _ _ _ h; cases h
+  | nil => intro _ _ h; cases h
   | cons a attrs ih =>
-    intro seen hs nd hm
+    intro hs nd hm
     obtain ⟨k', v'⟩ := a
     simp only [List.map_cons, List.nodup_cons] at nd
-    have hk' : k' ∉ seen := hs (k', v') (List.mem_cons_self ..)
+    have hk' : k' ≠ [] := hs (k', v') (List.mem_cons_self ..)
     unfold getAttrAux
     simp only [hk', if_false]
     by_cases hk : k' = key
@@ -2094,28 +2084,107 @@ theorem getAttrAux_found (key : Name) (raw : Name) :
     · simp only [hk, if_false]
       rcases List.mem_cons.mp hm with e | m
       · cases e; exact absurd rfl hk
-      · apply ih (k' :: seen) _ nd.2 m
-        intro a ha
-        simp only [List.mem_cons, not_or]
-        refine ⟨?_, hs a (List.mem_cons_of_mem _ ha)⟩
-        intro e
-        exact nd.1 (e ▸ List.mem_map.mpr ⟨a, ha, rfl⟩)
+      · exact ih hs.tail nd.2 m
 
-/-- with distinct keys the lookup does not depend on the order of the attributes -/
+/-- with distinct keys (and no attribute syntax error) the lookup does not depend on the order of
+the attributes -/
 theorem getAttr_perm (key : Name) {attrs attrs' : List Attr} (nd : (attrs.map (·.1)).Nodup)
-    (p : attrs.Perm attrs') : getAttr key attrs = getAttr key attrs' := by
+    (ne : NoErr attrs) (p : attrs.Perm attrs') : getAttr key attrs = getAttr key attrs' := by
   have nd' : (attrs'.map (·.1)).Nodup := (p.map _).nodup_iff.mp nd
+  have ne' : NoErr attrs' := fun a ha => ne a (p.mem_iff.mpr ha)
   by_cases h : ∃ raw, (key, raw) ∈ attrs
   · obtain ⟨raw, hm⟩ := h
     unfold getAttr
-    rw [getAttrAux_found key raw attrs [] (by simp) nd hm,
-      getAttrAux_found key raw attrs' [] (by simp) nd' (p.mem_iff.mp hm)]
+    rw [getAttrAux_found key raw attrs ne nd hm,
+      getAttrAux_found key raw attrs' ne' nd' (p.mem_iff.mp hm)]
   · have h1 : ∀ a ∈ attrs, a.1 ≠ key := by
       intro a ha e; exact h ⟨a.2, by rw [← e]; exact ha⟩
     have h2 : ∀ a ∈ attrs', a.1 ≠ key := fun a ha => h1 a (p.mem_iff.mpr ha)
     unfold getAttr
-    rw [getAttrAux_missing key attrs [] (by simp) nd h1,
-      getAttrAux_missing key attrs' [] (by simp) nd' h2]
+    rw [getAttrAux_missing key attrs ne h1, getAttrAux_missing key attrs' ne' h2]
+
+/-! ### repeated keys (since /repo ae885a6 not an error) -/
+
+/-- `get_xml_attribute` returns the FIRST attribute with the key, whatever follows it (repeated
+keys, even an attribute syntax error further right) -/
+theorem getAttr_first_match (key raw : Name) (pre post : List Attr) (hp : NoErr pre)
+    (hk : ∀ a ∈ pre, a.1 ≠ key) (hne : key ≠ []) :
+    getAttr key (pre ++ (key, raw) :: post)
+      = match unescape raw with
+        | some s => .ok s
+        | none => .error .parse := by
+  unfold getAttr
+  induction pre with
+  | nil =>
+    simp only [List.nil_append, getAttrAux, hne, if_false, if_true]
+    cases unescape raw <;> rfl
+  | cons a pre ih =>
+    obtain ⟨k', v'⟩ := a
+    have h1 : k' ≠ [] := hp (k', v') (List.mem_cons_self ..)
+    have h2 : k' ≠ key := hk (k', v') (List.mem_cons_self ..)
+    simp only [List.cons_append, getAttrAux, h1, h2, if_false]
+    exact ih hp.tail (fun a ha => hk a (List.mem_cons_of_mem _ ha))
+
+/-- an attribute syntax error met before the key is `Parse`, whatever follows -/
+theorem getAttr_error_before (key : Name) (pre post : List Attr) (hp : NoErr pre)
+    (hk : ∀ a ∈ pre, a.1 ≠ key) (v : Name) :
+    getAttr key (pre ++ ([], v) :: post) = .error .parse := by
+  unfold getAttr
+  induction pre with
+  | nil => simp [getAttrAux]
+  | cons a pre ih =>
+    obtain ⟨k', v'⟩ := a
+    have h1 : k' ≠ [] := hp (k', v') (List.mem_cons_self ..)
+    have h2 : k' ≠ key := hk (k', v') (List.mem_cons_self ..)
+    simp only [List.cons_append, getAttrAux, h1, h2, if_false]
+    exact ih hp.tail (fun a ha => hk a (List.mem_cons_of_mem _ ha))
+
+/-- the `<line>` loop is a left fold: reading `pre ++ post` is reading `post` from the state
+reached after `pre` -/
+theorem lineAttrs_append (pre post : List Attr) (acc : LineAcc) :
+    lineAttrs (pre ++ post) acc
+      = match lineAttrs pre acc with
+        | .ok acc' => lineAttrs post acc'
+        | .error k => .error k := by
+  induction pre generalizing acc with
+  | nil => rfl
+  | cons a pre ih =>
+    obtain ⟨k, v⟩ := a
+    simp only [List.cons_append, lineAttrs]
+    repeat' split
+    all_goals first
+      | rfl
+      | exact ih _
+      | simp_all
+
+/-! ### the work per element is linear -/
+
+theorem getAttrWork_le (key : Name) (attrs : List Attr) : getAttrWork key attrs ≤ attrs.length := by
+  induction attrs with
+  | nil => simp [getAttrWork]
+  | cons a attrs ih =>
+    obtain ⟨k, v⟩ := a
+    simp only [getAttrWork, List.length_cons]
+    split <;> omega
+
+theorem lineAttrsWork_le (attrs : List Attr) : lineAttrsWork attrs ≤ attrs.length := by
+  induction attrs with
+  | nil => simp [lineAttrsWork]
+  | cons a attrs ih =>
+    obtain ⟨k, v⟩ := a
+    simp only [lineAttrsWork, List.length_cons]
+    repeat' split
+    all_goals omega
+
+theorem attrWork_le (keys : List Name) (attrs : List Attr) :
+    attrWork keys attrs ≤ keys.length * attrs.length := by
+  unfold attrWork
+  induction keys with
+  | nil => simp
+  | cons k ks ih =>
+    simp only [List.map_cons, List.sum_cons, List.length_cons]
+    have := getAttrWork_le k attrs
+    rw [Nat.add_mul]; omega
 
 /-! ## order of `<class>` / `<sourcefile>` elements inside a package -/
 
@@ -2161,7 +2230,7 @@ theorem mem_fileNames_perm {items items' : List Item} (p : items.Perm items') (f
 /-! ## error kinds -/
 
 theorem parse_package_without_name (n : Name) (a : List Attr) (rest : List XmlEvent) (fuel : Nat)
-    (hn : localName n = sPackage) (nd : nodupKeys a = true) (h : hasNoKey a sName = true) :
+    (hn : localName n = sPackage) (nd : keysOk a = true) (h : hasNoKey a sName = true) :
     parse (.start n a :: rest) (fuel + 1) = .err .invalidRecord := by
   simp [parse, parseCap, expand, reportLoop, hn, getAttr_of_hasNoKey nd h]
 
@@ -2292,18 +2361,18 @@ theorem exTruncated_parse_error (fuel : Nat) : parse exTruncated (fuel + 5) = .e
   simp only [parse, parseCap, exTruncated, expand, reportLoop, h1, h2, if_false, if_true, g1, packageLoop,
     h3, g2, classLoop, h4, g3, g4, g5, methodLoop_eof]
 
-theorem lineAttrs_error_kind : ∀ (attrs : List Attr) (seen : List Name) (acc : LineAcc)
-    (k : ErrKind), lineAttrs seen attrs acc = .error k → k = .parse := by
+theorem lineAttrs_error_kind : ∀ (attrs : List Attr) (acc : LineAcc)
+    (k : ErrKind), lineAttrs attrs acc = .error k → k = .parse := by
   intro attrs
   induction attrs with
-  | nil => intro seen acc k h; simp [lineAttrs] at h
+  | nil => intro acc k h; simp [lineAttrs] at h
   | cons a attrs ih =>
-    intro seen acc k h
+    intro acc k h
     obtain ⟨k', v'⟩ := a
     unfold lineAttrs at h
     repeat' split at h
     all_goals first
-      | exact ih _ _ _ h
+      | exact ih _ _ h
       | (injection h with h; exact h.symm)
 
 theorem commitLine_error_kind (cap : Nat) (acc : SrcAcc) (la : LineAcc) (k : ErrKind)
@@ -2341,36 +2410,36 @@ theorem semL_lines_branches (r : Report) : (semL r).map lbOf = (sem r).map lbOf 
 
 theorem method_without_line (cls : Name) (n : Name) (a : List Attr) (name : Name)
     (rest : List XmlEvent) (fuel : Nat) (fns : List (Name × Fn))
-    (hn : localName n = sMethod) (nd : nodupKeys a = true) (h1 : hasAttr a sName name = true)
+    (hn : localName n = sMethod) (nd : keysOk a = true) (h1 : hasAttr a sName name = true)
     (h2 : hasNoKey a sLine = true) :
     classLoop cls (fuel + 1) (.start n a :: rest) fns = .err .invalidRecord := by
   simp [classLoop, hn, getAttr_of_hasAttr nd h1, getAttr_of_hasNoKey nd h2]
 
 theorem method_without_name (cls : Name) (n : Name) (a : List Attr)
     (rest : List XmlEvent) (fuel : Nat) (fns : List (Name × Fn))
-    (hn : localName n = sMethod) (nd : nodupKeys a = true) (h1 : hasNoKey a sName = true) :
+    (hn : localName n = sMethod) (nd : keysOk a = true) (h1 : hasNoKey a sName = true) :
     classLoop cls (fuel + 1) (.start n a :: rest) fns = .err .invalidRecord := by
   simp [classLoop, hn, getAttr_of_hasNoKey nd h1]
 
 theorem counter_without_type (n : Name) (a : List Attr) (rest : List XmlEvent) (fuel : Nat)
-    (ex : Bool) (hn : localName n = sCounter) (nd : nodupKeys a = true)
+    (ex : Bool) (hn : localName n = sCounter) (nd : keysOk a = true)
     (h1 : hasNoKey a sType = true) :
     methodLoop (fuel + 1) (.start n a :: rest) ex = .err .invalidRecord := by
   simp [methodLoop, hn, getAttr_of_hasNoKey nd h1]
 
 theorem method_counter_without_covered (n : Name) (a : List Attr) (rest : List XmlEvent)
-    (fuel : Nat) (ex : Bool) (hn : localName n = sCounter) (nd : nodupKeys a = true)
+    (fuel : Nat) (ex : Bool) (hn : localName n = sCounter) (nd : keysOk a = true)
     (h1 : hasAttr a sType sMETHOD = true) (h2 : hasNoKey a sCovered = true) :
     methodLoop (fuel + 1) (.start n a :: rest) ex = .err .invalidRecord := by
   simp [methodLoop, hn, getAttr_of_hasAttr nd h1, getAttr_of_hasNoKey nd h2]
 
-theorem class_without_sourcefilename (a : List Attr) (top : Name) (nd : nodupKeys a = true)
+theorem class_without_sourcefilename (a : List Attr) (top : Name) (nd : keysOk a = true)
     (h : hasNoKey a sSourcefilename = true) : sourceFileOf a top = top ++ sDotJava := by
   simp [sourceFileOf, getAttr_of_hasNoKey nd h]
 
 theorem class_or_sourcefile_without_name (cap : Nat) (pkg n : Name) (a : List Attr)
     (rest : List XmlEvent) (fuel : Nat) (m : List (Name × Cov))
-    (hn : localName n = sClass ∨ localName n = sSourcefile) (nd : nodupKeys a = true)
+    (hn : localName n = sClass ∨ localName n = sSourcefile) (nd : keysOk a = true)
     (h1 : hasNoKey a sName = true) :
     packageLoop cap pkg (fuel + 1) (.start n a :: rest) m = .err .invalidRecord := by
   have hne : sSourcefile ≠ sClass := by decide
